@@ -14,6 +14,7 @@ pub mod scn_conc;
 pub mod scn_c09;
 pub mod scn_r3;
 pub mod scn_c14;
+pub mod scn_c14o;
 pub mod scn_seq;
 pub mod scn_c18;
 pub mod scn_c18c;
